@@ -224,6 +224,53 @@ pub fn run(mut run: Run) -> i32 {
             });
         }
     }
+    // point-only geometries at the ends of the floating-point range (f64 at 2^+-520, f32 at 2^+-70): squared distances overflow or underflow there, the
+    // distances themselves do not; the nearest member must still be returned. Every ordered triple of distinct lattice points as members x every query point.
+    {
+        use geo::MultiPoint;
+        let g3p = grid(3);
+        let npt = g3p.len();
+        run.stage("closest-point-extreme-magnitudes", npt * npt * npt * npt, |idx, acc| {
+            let (a, b, c3, q) = (g3p[idx / (npt * npt * npt)], g3p[(idx / (npt * npt)) % npt], g3p[(idx / npt) % npt], g3p[idx % npt]);
+            if a == b || a == c3 || b == c3 {
+                return;
+            }
+            let members = [a, b, c3];
+            let d2 = |p: IP| (p.0 - q.0).pow(2) + (p.1 - q.1).pow(2);
+            let best = members.iter().map(|&p| d2(p)).min().unwrap();
+            acc.class(format!("extreme best{} ties{}", best.min(3), members.iter().filter(|&&p| d2(p) == best).count()));
+            for (name, sc) in [("2^520", 2f64.powi(520)), ("2^-520", 2f64.powi(-520))] {
+                let f = |p: IP| Point::new(p.0 as f64 * sc, p.1 as f64 * sc);
+                let mp = MultiPoint(members.iter().map(|&p| f(p)).collect::<Vec<_>>());
+                let gc = Geometry::GeometryCollection(GeometryCollection(members.iter().map(|&p| Geometry::Point(f(p))).collect()));
+                for (ty, got) in [("MultiPoint", guard(|| mp.closest_point(&f(q)))), ("GeometryCollection", guard(|| gc.closest_point(&f(q))))] {
+                    acc.evals += 1;
+                    let ok = match &got {
+                        Ok(Closest::Intersection(r)) => best == 0 && *r == f(q),
+                        Ok(Closest::SinglePoint(r)) => best > 0 && members.iter().any(|&p| d2(p) == best && f(p) == *r),
+                        _ => false,
+                    };
+                    if !ok {
+                        acc.viol(format!("closest_point of a {} of points at magnitude {} is not the nearest member", ty, name), idx, || json!({"members": format!("{:?}", members), "query": format!("{:?}", q), "scale": name, "got": format!("{:?}", got)}));
+                    }
+                }
+            }
+            for (name, sc) in [("2^70 (f32)", 2f32.powi(70)), ("2^-70 (f32)", 2f32.powi(-70))] {
+                let f = |p: IP| geo::Point::<f32>::new(p.0 as f32 * sc, p.1 as f32 * sc);
+                let mp = geo::MultiPoint::<f32>(members.iter().map(|&p| f(p)).collect::<Vec<_>>());
+                acc.evals += 1;
+                let got = guard(|| mp.closest_point(&f(q)));
+                let ok = match &got {
+                    Ok(Closest::Intersection(r)) => best == 0 && *r == f(q),
+                    Ok(Closest::SinglePoint(r)) => best > 0 && members.iter().any(|&p| d2(p) == best && f(p) == *r),
+                    _ => false,
+                };
+                if !ok {
+                    acc.viol(format!("closest_point of a MultiPoint<f32> at magnitude {} is not the nearest member", name), idx, || json!({"members": format!("{:?}", members), "query": format!("{:?}", q), "scale": name, "got": format!("{:?}", got)}));
+                }
+            }
+        });
+    }
     // closest_point on longer segments: projection parameters that are not representable (thirds, sevenths ...)
     let gq: Vec<IP> = { let m = if quick { 11 } else { 15 }; grid(m).into_iter().map(|p| (2 * p.0 - 5, p.1 - 3)).collect() };
     let ngq = gq.len();
